@@ -6,6 +6,14 @@ HOOK_COMMITS = ["db46fe7"]
 
 # id -> (technique, level text, level note, design ref)
 CHECKS = {
+ "C10": ("proptest + exhaustive edge grid against an independent ordering model; differential across literal / typed-field / value-API evaluation",
+         "Pairs of integers (27x27 edge grid exhaustively, random, neighbours around 2^53..2^63), floats, byte strings, timestamps, mixed int/float and structured values are compared through compiled VRL programs and the value API; all six operators must agree with an independent total-order model and with each other.",
+         "trusts Rust's native orderings as the model; mixed int/float asserts only what the statement gives",
+         "3/C10"),
+ "C11": ("proptest against an independent arithmetic model (i128 mod 2^64, IEEE on converted operands), three delivery forms + value API",
+         "Operator x operand-pair x delivery-form cases are evaluated through compiled VRL (literals, exact-typed fields, any-typed fields under ??) and the arithmetic API and compared bit-for-bit with the model; NaN must surface as an error.",
+         "float results use the host's IEEE operations in both model and implementation (dispatch/conversion is what is independent); pairs the statement leaves undefined are only required not to panic",
+         "3/C11"),
  "C18": ("proptest differential vs reference model + algebraic laws (get/insert/remove), stateful op histories, shrinking",
          "Generated (value, path, inserted value, prune) tuples and 1-8 step operation histories are pushed through Value::{get,insert,remove} and through an independent functional model; the four laws of the statement are asserted separately. Exploration only: absence of violations outside the generated cases is not established.",
          "trusts model/vpath.rs (reference semantics written from the doc comments) and the TV<->Value conversion",
